@@ -24,6 +24,14 @@ def run(cx):
     # row is offered again a bounded time after frames flow again
     from props.shared import resend_schedule
     resend_schedule(cx, "C11.w")
+    # the reply to a sync frame is the only thing that can reopen a sender's windows after a whole window was lost: it
+    # must carry the receiver's frame-window base and packet-window base in the places the sender reads them from
+    from props.shared import emitter_wiring
+    emitter_wiring(cx, "C11.x")
+    # a window that admits one packet too many overwrites the slot of the oldest unacknowledged packet: it is never
+    # resent, the receiver waits for it for ever and refuses the resync that points past it
+    from props.C02 import inst_emit_guards
+    inst_emit_guards(cx, "C11.y")
     from props.shared import ack_processing_presence, dispatch_table
     ack_processing_presence(cx, "C11.h")
     dispatch_table(cx, "C11.i", only={"DataFrame", "SyncFrame", "AckFrame"})
